@@ -54,6 +54,19 @@ from ckl.nodes import (
 )
 
 
+def int_from_digits(digits):
+    # the host converts only a limited number of digits in one piece:
+    # longer numerals are converted piecewise (as ValueInt renders them)
+    try:
+        return int(digits)
+    except ValueError:
+        value = 0
+        for start in range(0, len(digits), 600):
+            piece = digits[start:start+600]
+            value = value * 10 ** len(piece) + int(piece)
+        return value
+
+
 def check_redefine_keyword(token):
     if token.type == "keyword":
         raise CklSyntaxError(
@@ -1021,7 +1034,7 @@ def parse_primary_expr(lexer, unary_minus=False):
         result = deref_or_invoke(lexer, result)
     elif token.type == "int":
         try:
-            intvalue = int(token.value)
+            intvalue = int_from_digits(token.value)
         except ValueError:
             raise CklSyntaxError("Invalid int literal", token.pos)
         result = NodeLiteral(
